@@ -176,7 +176,10 @@ class World:
             if kd == "coll":
                 for attr in ("children", "sources", "sensors", "collections",
                              "children_all", "sources_all", "sensors_all", "collections_all"):
-                    row.append([self.idx(x) for x in getattr(o, attr)])
+                    try:
+                        row.append([self.idx(x) for x in getattr(o, attr)])
+                    except RecursionError:      # a cyclic tree: the flattening does not terminate
+                        row.append([UNKNOWN])
             else:
                 row += [[] for _ in range(8)]
             out.append(row)
@@ -526,6 +529,53 @@ PROBE_REMOVE = [{"op": "new", "k": "coll"}, {"op": "new", "k": "coll"}, {"op": "
                 {"op": "remove", "c": 0, "objs": [1, 2], "rec": True, "err": "raise"}]
 
 
+def _n(*kinds):
+    return [{"op": "new", "k": k} for k in kinds]
+
+
+# directed histories: every flag / exit that random generation reaches only rarely; they go through the
+# same correspondence and invariant pipeline as the random ones
+DIRECTED = [
+    # remove of a grandchild: recursive False (rejected / ignored / invalid errors value) and True
+    _n("coll", "coll", "sensor", "source") + [
+        {"op": "add", "c": 1, "objs": [2, 3], "ov": False}, {"op": "add", "c": 0, "objs": [1], "ov": False},
+        {"op": "remove", "c": 0, "objs": [2], "rec": False, "err": "raise"},
+        {"op": "remove", "c": 0, "objs": [2], "rec": False, "err": "ignore"},
+        {"op": "remove", "c": 0, "objs": [2], "rec": False, "err": "bad"},
+        {"op": "remove", "c": 0, "objs": [3, 2], "rec": True, "err": "raise"},
+        {"op": "remove", "c": 0, "objs": [3], "rec": True, "err": "ignore"},
+        {"op": "remove", "c": 0, "objs": [1, 2], "rec": True, "err": "raise"}],
+    # deep hit of rec_obj_remover that is not propagated, siblings scanned afterwards
+    _n("coll", "coll", "coll", "sensor", "coll", "source") + [
+        {"op": "add", "c": 2, "objs": [3], "ov": False}, {"op": "add", "c": 1, "objs": [2], "ov": False},
+        {"op": "add", "c": 4, "objs": [5], "ov": False}, {"op": "add", "c": 0, "objs": [1, 4], "ov": False},
+        {"op": "remove", "c": 0, "objs": [3, 5], "rec": True, "err": "raise"}],
+    # add: own child again with / without override, duplicates, self reference at depth 1, 2, 3
+    _n("coll", "coll", "coll", "sensor") + [
+        {"op": "add", "c": 0, "objs": [1], "ov": False}, {"op": "add", "c": 1, "objs": [2], "ov": False},
+        {"op": "add", "c": 2, "objs": [3], "ov": False},
+        {"op": "add", "c": 2, "objs": [3], "ov": False}, {"op": "add", "c": 2, "objs": [3], "ov": True},
+        {"op": "add", "c": 0, "objs": [3, 3], "ov": True}, {"op": "add", "c": 0, "objs": [0], "ov": True},
+        {"op": "add", "c": 1, "objs": [0], "ov": True}, {"op": "add", "c": 2, "objs": [0], "ov": True},
+        {"op": "add", "c": 2, "objs": [3, 1], "ov": True}, {"op": "add", "c": 0, "objs": [3, 2], "ov": True},
+        {"op": "parent", "x": 0, "p": 2}, {"op": "parent", "x": 2, "p": 0}, {"op": "parent", "x": 3, "p": None},
+        {"op": "parent", "x": 3, "p": None}],
+    # typed setters: flattening of collections, wrong kinds, foreign values, keeping the other kinds
+    _n("coll", "coll", "sensor", "source", "sensor", "source", "junk", "coll") + [
+        {"op": "add", "c": 1, "objs": [2, 3], "ov": False}, {"op": "add", "c": 0, "objs": [4, 5, 7], "ov": False},
+        {"op": "typed", "k": "sensor", "c": 0, "objs": [1]}, {"op": "typed", "k": "source", "c": 0, "objs": [1, 2]},
+        {"op": "typed", "k": "coll", "c": 0, "objs": [1, 2, 6]}, {"op": "typed", "k": "sensor", "c": 0, "objs": [4, 6]},
+        {"op": "typed", "k": "source", "c": 1, "objs": []}, {"op": "children", "c": 0, "objs": [1, 0]},
+        {"op": "children", "c": 0, "objs": [2, 3, 1]}, {"op": "children", "c": 1, "objs": [0]}],
+    # constructor / + with parented, duplicate and foreign arguments; copy inside a tree
+    _n("sensor", "source", "coll", "junk") + [
+        {"op": "ctor", "objs": [0, 1], "ov": False}, {"op": "ctor", "objs": [0], "ov": False},
+        {"op": "ctor", "objs": [0], "ov": True}, {"op": "plus", "a": 0, "b": 1}, {"op": "plus", "a": 2, "b": 2},
+        {"op": "plus", "a": 2, "b": 3}, {"op": "ctor", "objs": [2, 4], "ov": True}, {"op": "copy", "x": 4},
+        {"op": "copy", "x": 1}],
+]
+
+
 def probe_variant(ctx):
     """the witnesses of the `_refuted` theorems, replayed on the implementation"""
     _, tr, v1 = run_history(PROBE_ADD)
@@ -608,6 +658,16 @@ def run(ctx):
             ctx.bump("history:" + profile)
             if viol is not None:
                 viols.append((ops, viol, presig(ops, trace, viol)))
+                ctx.bump("history-with-violation")
+        for ops in DIRECTED:
+            done, trace, viol = run_history(ops)
+            cases.append((done, trace))
+            ctx.case(json.dumps(done, sort_keys=True), True)
+            ctx.bump("history:directed")
+            for op, (out, _) in zip(done, trace):
+                ctx.bump(f"op:{op['op']}:{out}")
+            if viol is not None:
+                viols.append((done, viol, presig(done, trace, viol)))
                 ctx.bump("history-with-violation")
         mid = cases[len(cases) // 2]
         ctx.samples.append({"history": mid[0], "outcomes": [o for o, _ in mid[1]],
